@@ -39,7 +39,9 @@ fn c01(seed: u64, cache: CacheMode) {
     let cfg = crate::gen::RandCfg { max_ops: 14, reopen_pct: 15, clear_pct: 20, read_pct: 10, max_block: 40, big_batch: 0, far_clear: false };
     let ops = crate::gen::random_history(&mut r, &cfg);
     hist(&ops, seed ^ 1, cache);
-    if seed % 4 == 0 {
+    // (not under Miri: the 32770-block batch alone takes hours at ~1000x slowdown; the page-edge
+    // load path runs natively in C01/C08 and under ASan in C08's lane)
+    if seed % 4 == 0 && !cfg!(miri) {
         // bitfield page edge: 32770 one-byte blocks, clear across the edge, reopen
         let ops = vec![Op::Batch((0..32_770u32).map(|i| (i + 1, 1)).collect()), Op::Clear(32_766, 32_769), Op::Reopen];
         let res = ops::run_history(seed, &ops, cache, 4, CMP_CONTIG, |_, _, _| Ok(()));
